@@ -1,9 +1,9 @@
-(* Extract_krylov.v -- extraction of the Krylov models (Krylov.v), the independent
+(* Extract_krylov.v -- extraction of the Krylov models (Krylov.v, KrylovIdrs.v), the independent
    references (KrylovRef.v) and the specification functions used by the oracles.
    Directives: ExtractCommon.v (Basic, NatInt, ZBigInt, Z.ggcd -> zarith gcd). *)
 From Amgcl Require Import ExtractCommon.
 From Coq Require Import QArith Qcanon.
-From Amgcl Require Import Scalar QcInst Vec Crs Kernels Krylov KrylovRef.
+From Amgcl Require Import Scalar QcInst Vec Crs Kernels Krylov KrylovIdrs KrylovRef.
 Separate Extraction
   QcInst.QcS Scalar.is_zero Scalar.smax Scalar.smin
-  Vec Crs Kernels Krylov KrylovRef.
+  Vec Crs Kernels Krylov KrylovIdrs KrylovRef.
